@@ -85,9 +85,18 @@ class Peer(object):
 
     # -- client -> peer -----------------------------------------------------
     def inflate(self, payload):
+        # zlib only rejects a back-reference that reaches beyond window + output produced by the SAME call
+        # (the strict dmax check is compiled out by default), so the message is inflated in small steps:
+        # then history can only come from the 2^bits window, as a real windowed peer would have it
         try:
-            out = self._inflater.decompress(bytes(payload) + TAIL)
-            if self._inflater.unused_data:
+            d = self._inflater
+            data = bytes(payload) + TAIL
+            parts = []
+            while data:
+                parts.append(d.decompress(data, 64))
+                data = d.unconsumed_tail
+            out = b''.join(parts)
+            if d.unused_data:
                 raise InflateError('unused data after deflate stream')
         except zlib.error as e:
             raise InflateError(str(e))
